@@ -184,7 +184,8 @@ def parse_css_declarations(
 
 
 def parse_view_box(s: str) -> Rect:
-    box = tuple(float(v) for v in re.split(r",|\s+", s))
+    # numbers separated by whitespace and/or a comma, e.g. "0, 0, 10, 10"
+    box = tuple(float(v) for v in re.split(r"\s*,\s*|\s+", s.strip()))
     if len(box) != 4:
         raise ValueError(f"Unable to parse viewBox: {s!r}")
     return Rect(*box)
